@@ -22,5 +22,6 @@ CHECK = {
         {"name": "sched", "pkg": "./checks/c20/sched",
          "sync": ["syncutil/pool.go"], "gomaxprocs": 1},
         {"name": "race", "pkg": "./checks/c20/race", "race": True},
+        {"name": "inputs", "pkg": "./checks/c20/inputs"},
     ],
 }
